@@ -135,3 +135,42 @@ Section Sound.
     - rewrite IH by exact Hr. f_equal. unfold run_copy. cbn [snd]. destruct s as [t [c|]]; reflexivity.
   Qed.
 End Sound.
+
+(* ------------------------------------------------------------------ freshness analysis is sound *)
+Section Fresh.
+  Variables tree cache : Type.
+  Variable populate : tree -> cache.
+  Variable flush : tree -> cache -> tree.
+  Variable edit : nat -> cache -> cache.
+  Variable mut : nat -> tree -> tree.
+  Variable cond_tree : nat -> tree -> bool.
+  Variable cond_cache : nat -> cache -> bool.
+  Notation run_g := (run_g tree cache populate flush edit mut cond_tree cond_cache).
+  Notation hc := (has_cache tree cache).
+
+  (* if the analysis accepts, a run never flushes, edits, reads or returns a stale cache *)
+  Theorem fresh_sound k : forall s stale used,
+    wf_fresh (hc s) stale k = true -> used = false ->
+    let '(_, stale', used') := run_g k s stale used in stale' = false /\ used' = false.
+  Proof.
+    induction k as [rr|k IHk|k IHk|n k IHk|n k IHk|k IHk|n k1 IHk1 k2 IHk2|n k1 IHk1 k2 IHk2|k1 IHk1 k2 IHk2];
+      intros s stale used Hwf Hu; cbn [wf_fresh] in Hwf; cbn [run_g]; subst used; cbn [orb].
+    - apply negb_true_iff in Hwf. split; [exact Hwf|reflexivity].
+    - apply andb_true_iff in Hwf. destruct Hwf as [H1 H2]. apply negb_true_iff in H1. rewrite H1.
+      apply IHk; [|reflexivity]. destruct s as [t [c|]]; exact H2.
+    - apply andb_true_iff in Hwf. destruct Hwf as [H1 H2]. apply negb_true_iff in H1. rewrite H1.
+      apply IHk; [|reflexivity]. destruct s as [t [c|]]; exact H2.
+    - apply andb_true_iff in Hwf. destruct Hwf as [H1 H2]. apply negb_true_iff in H1. rewrite H1.
+      apply IHk; [|reflexivity]. destruct s as [t [c|]]; cbn [has_cache snd andb] in *; [subst stale|]; exact H2.
+    - apply IHk; [|reflexivity]. destruct s as [t [c|]]; cbn [has_cache snd fst orb] in *; [rewrite orb_true_r in *|rewrite orb_false_r in *]; exact Hwf.
+    - apply IHk; [exact Hwf|reflexivity].
+    - apply andb_true_iff in Hwf. destruct Hwf as [H1 H2].
+      destruct (cond_tree n (fst s)); [apply IHk1|apply IHk2]; try assumption; reflexivity.
+    - destruct s as [t [c|]]; cbn [has_cache snd] in *.
+      + apply andb_true_iff in Hwf. destruct Hwf as [H12 H3]. apply andb_true_iff in H12. destruct H12 as [H1 H2].
+        apply negb_true_iff in H1. subst stale.
+        destruct (cond_cache n c); [apply IHk1|apply IHk2]; try assumption; reflexivity.
+      + apply IHk2; [exact Hwf|reflexivity].
+    - destruct s as [t [c|]]; cbn [has_cache snd] in *; [apply IHk1|apply IHk2]; try assumption; reflexivity.
+  Qed.
+End Fresh.
